@@ -19,7 +19,12 @@ FirstIdx(vis, row, k) == IF k > Len(vis) THEN 0 ELSE IF M(vis[k].pat, row) THEN 
 RuleIdx(vis, row) ==
   IF \E k \in DOMAIN vis : vis[k].ign /\ M(vis[k].pat, row) THEN 0 ELSE FirstIdx(vis, row, 1)
 Known(vis, row) == RuleIdx(vis, row) # 0
-KidRules(vis, row) == LET k == RuleIdx(vis, row) IN IF k = 0 \/ vis[k].glob THEN <<>> ELSE vis[k].kids
+\* rules for the children of a row: when the governing rule is a local one, the children rules of EVERY local rule matching the row,
+\* united in rule order (a row may be described by a specific and by a general rule at once); a %global rule hands down nothing of its own
+KidRules(vis, row) ==
+  LET k == RuleIdx(vis, row) IN
+  IF k = 0 \/ vis[k].glob THEN <<>>
+  ELSE FlatSeq([j \in DOMAIN vis |-> IF ~vis[j].glob /\ ~vis[j].ign /\ M(vis[j].pat, row) THEN vis[j].kids ELSE <<>>])
 \* the slot a row occupies on a device that holds one line per rule and key
 Slot(vis, row) == LET k == RuleIdx(vis, row) IN IF k = 0 THEN <<0>> ELSE <<k, Key(vis[k].pat, row)>>
 
